@@ -8,6 +8,10 @@ slot reachable from the dataset (transforms at any depth inside the sample wrapp
 collators) the identity of the generator object and the first 64 draws of a copy of it are recorded before and after.
 A fourth copy is instrumented (inherited generators wrapped into spies, np.random.default_rng patched so that the k-th
 generator created by the hook is tagged Wrk k) and then asked for samples: that is the case handed to the Coq model.
+Every simulated worker also serves samples and runs every collator registered on the root on a batch of real samples;
+the same worker seed has to reproduce those outputs (this covers the wrappers' own draws - MUGS / mix wrapper without
+seed - which have no generator slot).  Launch cases run the same seeded workers in two fresh interpreters with
+different PYTHONHASHSEED values and compare all of it.
 Thorough tier: a real DataLoader(num_workers=2/3, worker_init_fn=dataset.worker_init_fn) whose dataset returns the
 member draws.
 """
@@ -32,6 +36,13 @@ COQ_CHECK = "CheckC09.check"
 COQ_CASE_TYPE = "CheckC09.case_t"
 SHARD = 60
 TRUSTED = L.TRUSTED_COMMON + [
+    "cross-launch comparison: two fresh interpreters (python -m harness.c09 --launch-child, PYTHONHASHSEED from the "
+    "case, both different from the harness's own) plus the harness process itself run the same seeded worker "
+    "simulations without spies; the records (first 8 draws of every member generator, served samples, batches collated "
+    "by the registered collators) must be equal; exception texts are dropped (they may hold addresses)",
+    "the collators registered on the root are called as collator.collate([x, one-hot class], 'x class', ctx) on batches "
+    "of 4 real samples of the stack (multi-view stacks: list of stacked views; PIL stacks: synthetic tensors); "
+    "KDIjepaMaskCollator's shared iteration counter is reset before each call",
     "harness/rngstack.py: live extraction of the dataset stack (class that defines worker_init_fn, wrapper transform "
     "fields through vars(), registered collators), patched np.random.default_rng (k-th generator created during "
     "worker_init_fn = Wrk k)",
@@ -45,24 +56,44 @@ ASSUMPTIONS = [
     "InterleavedSampler / DataLoader is not reachable from the dataset and outside the claim (TODO.md of the repo "
     "says the same)",
     "dataset stacks are trees: no transform / collator instance is shared between two places",
-    "the wrappers' own draws from the process-global NumPy RNG (MUGSMultiViewWrapper without seed uses GlobalRng) "
-    "are worker-derived by construction (the DataLoader seeds that RNG per worker) and are not slots",
-    "KDMixWrapper(seed=None) draws from np.random.default_rng(None) (OS entropy) for every sample: workers never "
-    "replay each other, but nothing reproduces it; it has no generator slot and is not in the property's list of "
-    "components (transforms, per-view transforms, registered collators) - excluded, reported as an observation",
+    "the wrappers' own draws without a seed (MUGSMultiViewWrapper, KDMixWrapper: GlobalRng = the process-global NumPy "
+    "RNG) count as worker-derived because the DataLoader seeds numpy / torch / random of every worker process from "
+    "base_seed + worker_id (torch.utils.data._utils.worker._worker_loop; trusted, exercised by the thorough tier's real "
+    "DataLoader runs); OS entropy (default_rng(None)) does not",
+    "the same worker seed reproduces the same stream is also required ACROSS interpreter launches (restart / resume / "
+    "spawned workers): PYTHONHASHSEED, object addresses and the like must not enter a stream",
 ]
 ALLOWED_AXIOMS = []
 RULE = ("stacks: root (tensor or PIL data, 0-2 registered collators) under 1-4 layers of unseeded X/Y/Target/Source "
         "transform wrappers over random transform trees, KDMultiViewWrapper (1-3 per-view trees), BYOL / minaug / MUGS "
-        "multi-view wrappers, SemsegTransformWrapper, subset / shuffle / repeat / label-smoothing wrappers, KDConcatDataset "
+        "multi-view wrappers, SemsegTransformWrapper, KDMixWrapper without seed (bare, above / below transform wrappers, "
+        "below a multi-view wrapper), subset / shuffle / repeat / label-smoothing wrappers, KDConcatDataset "
         "of sub-stacks, under ModeWrapper or _InterleavedConcatDataset of ModeWrappers; parent history, 2 worker seeds + "
-        "repeat, random rank; non-trivial = at least one generator slot was re-seeded and a re-seeded generator drew; "
+        "repeat (worker seeds 0 / 1 in ~12%, parent seed 0 in half of the cases), random rank; per worker: member "
+        "streams, served samples, every registered collator called on a real batch; one (quick) / three (thorough, 80 "
+        "stacks each) cross-launch cases: the same seeded workers in two fresh interpreters with different "
+        "PYTHONHASHSEED; non-trivial = at least one generator slot was re-seeded and a re-seeded generator drew; "
         "distinct by (stack signature, number of slots)")
 N_STREAM = 64
 
 
 def pre_build():
     T.regenerate()
+
+
+# sample wrapper classes with stochastic parts (called transform fields / own draws) the generator builds stacks of;
+# TransformWrapperBase is the abstract base, ImagenetNoaugXTransformWrapper a deterministic pipeline
+GENERATED_WRAPPERS = set(K.X_WRAPPERS) | {"KDMultiViewWrapper", "ByolMultiViewWrapper", "ImagenetMinaugMultiViewWrapper",
+                                          "MUGSMultiViewWrapper", "ImagenetMinaugXTransformWrapper", "SemsegTransformWrapper",
+                                          "KDMixWrapper"}
+NO_CASES = {"TransformWrapperBase", "ImagenetNoaugXTransformWrapper"}
+
+
+def unlisted_wrappers(info):
+    """fail closed: a sample wrapper class with called transform fields or draws of its own that the generator does
+    not know"""
+    return [d["name"] for d in info["wrappers"]
+            if (d["calls"] or d["local_u"] or d["local"]) and d["name"] not in GENERATED_WRAPPERS and d["name"] not in NO_CASES]
 
 
 # ---------------------------------------------------------------------------
@@ -86,7 +117,7 @@ def tree(rng, S, no_sched=False):
 def gen_inner(rng, depth=0, no_sched=False):
     S = rng.choice([16, 16, 8])
     N = rng.choice([4, 6, 8])
-    fam = rng.choice(["x", "x", "x", "mv", "mv", "pil", "semseg", "plain"])
+    fam = rng.choice(["x", "x", "x", "mv", "mv", "pil", "pil", "semseg", "plain", "mix", "mix"])
     cols = []
     for _ in range(rng.choice([0, 0, 1, 1, 2])):
         cols.append({"c": rng.choice(["KDMixCollator", "KDMixCollator", "KDDinoMaskCollator", "KDIjepaMaskCollator",
@@ -104,7 +135,7 @@ def gen_inner(rng, depth=0, no_sched=False):
                 layers.append({"w": k, "idx": [rng.randrange(n) for _ in range(m)]})
                 n = m
             elif k == "ShuffleWrapper":
-                layers.append({"w": k, "seed": rng.randrange(100)})
+                layers.append({"w": k, "seed": rng.choice([0, rng.randrange(100)])})
             else:
                 layers.append({"w": k, "r": 2})
                 n *= 2
@@ -152,17 +183,32 @@ def gen_inner(rng, depth=0, no_sched=False):
             maybe_index(0.3)
         items = [K.X_WRAPPERS[l["w"]] for l in layers if l["w"] in K.X_WRAPPERS]
         mode = " ".join(dict.fromkeys(items + (["class"] if rng.random() < 0.5 else [])))
+    elif fam == "mix":
+        # a sample-level mix wrapper WITHOUT seed: its own draws (apply / partner / lambda) must come from a stream the
+        # worker's seed determines
+        if rng.random() < 0.5:
+            t = tree(rng, S, no_sched)
+            while has_class(t, "KDRandomGrayscale") or has_class(t, "KDGrayscale"):   # (expanded views refuse the in-place mixup)
+                t = tree(rng, S, no_sched)
+            layers.append({"w": "XTransformWrapper", "t": t})
+        layers.append({"w": "KDMixWrapper", "p": rng.choice([0.5, 1.0]), "alpha": rng.choice([0.4, 1.0])})
+        r = rng.random()
+        if r < 0.3:
+            layers.append({"w": "XTransformWrapper", "t": tree(rng, S, no_sched)})
+        elif r < 0.5:
+            layers.append({"w": "KDMultiViewWrapper", "cfg": [[rng.choice([1, 2]), tree(rng, S, no_sched)]]})
+        mode = "x" if layers[-1]["w"] == "KDMultiViewWrapper" else rng.choice(["x class", "x", "class x"])
     else:
         if rng.random() < 0.5:
             layers.append({"w": "LabelSmoothingWrapper"})
         mode = rng.choice(["x", "x class"])
     spec = {"root": {"kind": kind, "N": N, "S": S, "col": cols}, "layers": layers, "mode": mode}
-    if depth == 0 and fam not in ("semseg",) and rng.random() < 0.2:
+    if depth == 0 and fam not in ("semseg", "mix") and rng.random() < 0.2:
         # KDConcatDataset of this stack and one or two more with the same item kinds
         others = []
         for _ in range(rng.choice([1, 2])):
             o = gen_inner(rng, depth + 1, no_sched)
-            while "semseg" in o["mode"]:
+            while "semseg" in o["mode"] or any(l["w"] == "KDMixWrapper" for l in o["layers"]):
                 o = gen_inner(rng, depth + 1, no_sched)
             others.append(o)
         spec["layers"] = layers + [{"w": "concat", "others": others}]
@@ -187,10 +233,25 @@ def spec_has_sched(spec):
     return "KDScheduledTransform" in json.dumps(spec)
 
 
+def pick_ws(rng):
+    """worker seeds: 0 and 1 (falsy / tiny) now and then, otherwise anything below 2^31 - 1"""
+    r = rng.random()
+    return 0 if r < 0.08 else 1 if r < 0.12 else rng.randrange(2 ** 31 - 1)
+
+
 def mk_case(rng, spec):
     n = total_len(spec)
-    return {"kind": "sim", "spec": spec, "ga": rng.randrange(10 ** 6), "ws1": rng.randrange(2 ** 31 - 1),
-            "ws2": rng.randrange(2 ** 31 - 1), "rank": rng.randrange(4), "warm": [rng.randrange(n) for _ in range(rng.choice([0, 1, 3]))],
+    # (the parent's global seed differs from the worker seeds: with equal seeds a worker legitimately re-creates the
+    # generators the parent created, which is not what "still the inherited copy" is about)
+    ga = rng.choice([0, rng.randrange(10 ** 6)])
+    ws1 = pick_ws(rng)
+    while ws1 == ga:
+        ws1 = pick_ws(rng)
+    ws2 = pick_ws(rng)
+    while ws2 in (ws1, ga):
+        ws2 = pick_ws(rng)
+    return {"kind": "sim", "spec": spec, "ga": ga, "ws1": ws1,
+            "ws2": ws2, "rank": rng.randrange(4), "warm": [rng.randrange(n) for _ in range(rng.choice([0, 1, 3]))],
             "probe": sorted({0, n - 1} | {rng.randrange(n) for _ in range(4)})}
 
 
@@ -222,7 +283,33 @@ def directed_cases(rng, info):
     out.append(mk_case(rng, {"interleaved": [sub, {"root": root(col=("KDMixCollator", "PadSequencesCollator")), "layers": [x, x], "mode": "x"}]}))
     for c in ("KDMixCollator", "KDDinoMaskCollator", "KDIjepaMaskCollator", "PadSequencesCollator"):
         out.append(mk_case(rng, {"root": root(col=(c,)), "layers": [], "mode": "x class"}))
+        out.append(mk_case(rng, {"root": root(col=(c, "KDMixCollator")), "layers": [x], "mode": "x class"}))
+    out.append(mk_case(rng, {"root": root(col=("KDDinoMaskCollator",)), "layers": [{"w": "KDMultiViewWrapper", "cfg": [[2, leaf()]]}], "mode": "x"}))
+    # the wrappers' own draws without a seed: sample-level mix (bare, above and below transform wrappers, below a
+    # multi-view wrapper), MUGS
+    mix = {"w": "KDMixWrapper", "p": 1.0, "alpha": 0.8}
+    for layers, mode in (([mix], "x class"), ([mix], "x"), ([x, mix], "class x"), ([mix, x], "x class"),
+                         ([mix, {"w": "KDMultiViewWrapper", "cfg": [[2, leaf()]]}], "x")):
+        out.append(mk_case(rng, {"root": root(col=("KDMixCollator",)), "layers": layers, "mode": mode}))
     return out
+
+
+def launch_items(rng, n_random):
+    """stacks for the cross-launch comparison: every collator class, every wrapper class with transforms, the wrappers
+    with own draws, plus random stacks"""
+    info = T.regenerate()
+    pool = directed_cases(rng, info)
+    keep = [c for c in pool if c["spec"].get("root", {}).get("col")][:10]
+    rest = [c for c in pool if c not in keep]
+    rng.shuffle(rest)
+    items = keep + rest[:6] + [mk_case(rng, gen_spec(rng, no_sched=False)) for _ in range(n_random)]
+    return [{k: c[k] for k in ("spec", "ga", "ws1", "rank", "warm", "probe")} for c in items]
+
+
+def launch_case(rng, n_random):
+    # two fresh interpreters with string-hash seeds different from each other and from the harness's own (0)
+    hs = rng.sample(range(1, 4000), 2)
+    return {"kind": "launch", "items": launch_items(rng, n_random), "hs": hs}
 
 
 def loader_case(rng):
@@ -236,22 +323,42 @@ def gen_cases(rng, tier):
     out = []
     if info["errors"]:
         out.append({"kind": "translator", "errors": info["errors"]})
+    out += [{"kind": "unlisted", "cls": c} for c in unlisted_wrappers(info)]
     out += directed_cases(rng, info)
     out += [mk_case(rng, gen_spec(rng)) for _ in range(250 if tier == "quick" else 2500)]
     out += [loader_case(rng) for _ in range(0 if tier == "quick" else 40)]
+    out += [launch_case(rng, 4)] if tier == "quick" else [launch_case(rng, 60) for _ in range(3)]
     return out
 
 
 def search_cases(rng, tier):
     info = T.regenerate()
-    for _ in range(2):
-        for c in directed_cases(rng, info):
-            yield c
-    for _ in range(1500):
+    for c in directed_cases(rng, info):
+        yield c
+    yield launch_case(rng, 10)
+    for c in directed_cases(rng, info):
+        yield c
+    for k in range(1500):
         yield mk_case(rng, gen_spec(rng))
+        if k % 500 == 499:
+            yield launch_case(rng, 40)
 
 
 def shrink(case):
+    if case.get("kind") == "launch":
+        items = case["items"]
+        if len(items) > 1:
+            h = len(items) // 2
+            yield {**case, "items": items[:h]}
+            yield {**case, "items": items[h:]}
+            return
+        n = 0
+        for c in shrink({**items[0], "kind": "sim", "ws2": items[0]["ws1"] + 1}):
+            yield {**case, "items": [{k: c[k] for k in ("spec", "ga", "ws1", "rank", "warm", "probe")}]}
+            n += 1
+            if n >= 10:     # every candidate costs two interpreter launches
+                return
+        return
     if case.get("kind") != "sim":
         return
     spec = case["spec"]
@@ -318,25 +425,83 @@ def _get(ds, i):
         return K.exc_info(e)
 
 
-def _call_collators(ds):
-    """run the registered mix collators on a synthetic batch (the other collators are observed through their slots)"""
+def _mode_wrappers(ds):
+    """the ModeWrapper(s) of a stack: the top, or the members of an _InterleavedConcatDataset"""
+    if "datasets" in vars(ds) and type(ds).__name__ == "_InterleavedConcatDataset":
+        return list(ds.datasets)
+    return [ds]
+
+
+def _real_batch(M, idxs):
+    """a batch of REAL samples of the stack below the ModeWrapper M, in the layout 'x class' the collators are called
+    with: x stacked (a list of stacked views for multi-view stacks), class as one-hot float rows"""
+    import torch
+    top = M.dataset
+    xs = [top.getitem_x(i) for i in idxs]
+    if all(torch.is_tensor(x) for x in xs) and len({tuple(x.shape) for x in xs}) == 1:
+        x = torch.stack(xs)
+    elif all(isinstance(x, list) and all(torch.is_tensor(v) for v in x) for x in xs) \
+            and len({tuple(tuple(v.shape) for v in x) for x in xs}) == 1:
+        x = [torch.stack([x[k] for x in xs]) for k in range(len(xs[0]))]
+    else:
+        return None
+    ys = []
+    for i in idxs:
+        y = top.getitem_class(i)
+        if torch.is_tensor(y) and y.ndim == 1:
+            ys.append(y.float())
+        else:
+            ys.append(torch.eye(K.N_CLASSES)[int(y) % K.N_CLASSES].clone())
+    return [x, torch.stack(ys)]
+
+
+def _call_collators(ds, idxs, with_exc_text=True):
+    """run EVERY collator registered on the root dataset(s) on a batch of real samples of the stack (after worker
+    initialisation): KDMixCollator mixes x / class, the DINO / I-JEPA collators write their masks into ctx, the padding
+    collator pads.  (I-JEPA's iteration counter - a multiprocessing.Value shared by all copies, it seeds the block SIZES
+    on purpose - is reset first so that two workers are comparable.)  -> canonical outputs"""
     import torch
     out = []
-    for root in K.root_datasets(ds):
-        for c in root.collators:
-            if type(c).__name__ == "KDMixCollator":
-                g = torch.Generator().manual_seed(5)
-                batch = [(torch.rand(3, 8, 8, generator=g), torch.eye(4)[i % 4].clone()) for i in range(4)]
-                try:
-                    c.collate(list(torch.utils.data.default_collate(batch)), "x class", {})
-                    out.append("ok")
-                except Exception as e:  # noqa
-                    out.append(f"{type(e).__name__}: {str(e)[:100]}")
+    for M in _mode_wrappers(ds):
+        cols = list(M.collators)
+        if not cols:
+            continue
+        n = len(M)
+        use = [i % n for i in idxs][:4] or [0]
+        while len(use) < 4:
+            use.append(use[-1])
+        try:
+            batch = _real_batch(M, use)
+        except Exception as e:  # noqa
+            batch = None
+        if batch is None:
+            g = torch.Generator().manual_seed(5)
+            batch = [torch.rand(4, 3, 8, 8, generator=g), torch.eye(4)[:4].clone()]
+        for c in cols:
+            if "_itr_counter" in vars(c):
+                c._itr_counter.value = -1
+            ctx = {}
+            try:
+                if type(c).__name__ == "PadSequencesCollator":
+                    res = c.collate([(batch[0][k] if torch.is_tensor(batch[0]) else batch[0][0][k], batch[1][k])
+                                     for k in range(4)], "x class", ctx)
+                else:
+                    b = [([v.clone() for v in batch[0]] if isinstance(batch[0], list) else batch[0].clone()), batch[1].clone()]
+                    res = c.collate(b, "x class", ctx)
+                out.append([type(c).__name__, L.canon(res), L.canon(ctx)])
+            except Exception as e:  # noqa
+                out.append([type(c).__name__, "EXC", type(e).__name__] + ([str(e)[:100]] if with_exc_text else []))
     return out
 
 
+def _init_worker(W, ws, rank, kw):
+    """what a dataloader worker does before its first sample: the process-global generators are seeded from the
+    worker's seed (torch.utils.data._utils.worker seeds torch, random and numpy), then the user's worker_init_fn runs"""
+    L.seed_globals(ws)
+    W.worker_init_fn(rank, **kw)
+
+
 def run_sim_case(case):
-    import numpy as np
     spec = case["spec"]
     kw = _wi_kwargs(spec)
     obs = {}
@@ -358,8 +523,7 @@ def run_sim_case(case):
         before = [_stream(o.rng) for o in objs]
         rec = {"ws": ws, "before": before}
         try:
-            np.random.seed(ws)
-            W.worker_init_fn(case["rank"], **kw)
+            _init_worker(W, ws, case["rank"], kw)
         except Exception as e:  # noqa
             rec["error"] = f"{type(e).__name__}: {str(e)[:300]}"
             obs["workers"].append(rec)
@@ -371,6 +535,9 @@ def run_sim_case(case):
         for k, o in enumerate(objs):
             groups.setdefault(id(o.rng), []).append(k)
         rec["shared"] = sorted(groups.values())
+        # what the worker then produces: samples and collated batches (every stochastic decision shows in them)
+        rec["samples"] = [[i, _get(W, i)] for i in case["probe"]]
+        rec["collated"] = _call_collators(W, case["probe"])
         obs["workers"].append(rec)
     # the instrumented worker (case for the Coq model)
     W = K.worker_copy(D)
@@ -378,8 +545,7 @@ def run_sim_case(case):
     obs["stack"] = K.live_stack(W)
     try:
         with K.PatchedDefaultRng("wrk") as P:
-            np.random.seed(case["ws1"])
-            W.worker_init_fn(case["rank"], **kw)
+            _init_worker(W, case["ws1"], case["rank"], kw)
         obs["created"] = P.count
     except Exception as e:  # noqa
         obs["spied_error"] = f"{type(e).__name__}: {str(e)[:300]}"
@@ -395,12 +561,73 @@ def run_sim_case(case):
     L.DRAW_HOOK[0] = on_draw
     try:
         with K.PatchedDefaultRng("inj"):
+            trip = L.Tripwire()
             obs["samples"] = [[i, _get(W, i)] for i in case["probe"]]
-            obs["collated"] = _call_collators(W)
+            obs["collated"] = _call_collators(W, case["probe"])
+            srcs += [["glob", g] for g in trip.touched()]
     finally:
         L.DRAW_HOOK[0] = None
     obs["sources"] = srcs
     return obs
+
+
+# ---------------------------------------------------------------------------
+# the same fully seeded worker in several interpreter launches
+# ---------------------------------------------------------------------------
+def launch_record(item):
+    """one fully seeded simulated worker -> everything random about it: first draws of every member generator, the
+    samples it serves, the batches its registered collators produce.  No spies, no patches."""
+    spec = item["spec"]
+    try:
+        L.seed_globals(item["ga"])
+        D = K.build_stack(spec)
+        for i in item["warm"]:
+            _get(D, i)
+        W = K.worker_copy(D)
+        _init_worker(W, item["ws1"], item["rank"], _wi_kwargs(spec))
+    except Exception as e:  # noqa
+        return {"error": type(e).__name__}
+    objs = K.slot_objects(W)
+
+    def noexc(v):
+        return v[:2] + v[3:] if isinstance(v, list) and v and v[0] == "EXC" else v     # (messages may hold addresses)
+
+    return {"paths": [p for p, _ in objs], "streams": [_stream(o.rng)[:8] for _, o in objs],
+            "samples": [[i, noexc(_get(W, i))] for i in item["probe"]],
+            "collated": _call_collators(W, item["probe"], with_exc_text=False)}
+
+
+def _launch_child():
+    import json
+    import sys
+    from . import common
+    common.setup_repo_path()
+    items = json.load(sys.stdin)["items"]
+    out = [launch_record(it) for it in items]
+    sys.stdout.write("\n@@C09-LAUNCH@@" + json.dumps({"hashseed": __import__("os").environ.get("PYTHONHASHSEED"), "records": out}) + "\n")
+
+
+def run_launch_case(case):
+    import json
+    import os
+    import subprocess
+    import sys
+    from concurrent.futures import ThreadPoolExecutor
+    from . import common
+
+    def launch(h):
+        env = dict(os.environ)
+        env["PYTHONHASHSEED"] = str(h)
+        p = subprocess.run([sys.executable, "-m", "harness.c09", "--launch-child"], input=json.dumps({"items": case["items"]}),
+                           env=env, cwd=common.VERIF, capture_output=True, text=True, timeout=1500)
+        if p.returncode != 0 or "@@C09-LAUNCH@@" not in p.stdout:
+            return {"crash": (p.stderr or p.stdout)[-600:]}
+        return json.loads(p.stdout.split("@@C09-LAUNCH@@")[1])
+
+    with ThreadPoolExecutor(max_workers=2) as ex:
+        runs = list(ex.map(launch, case["hs"]))
+    here = {"hashseed": os.environ.get("PYTHONHASHSEED"), "records": [launch_record(it) for it in case["items"]]}
+    return {"launches": runs + [here]}
 
 
 def run_loader_case(case):
@@ -448,8 +675,12 @@ def run_loader_case(case):
 def run_impl(case):
     if case.get("kind") == "translator":
         return {"skipped": "translator"}
+    if case.get("kind") == "unlisted":
+        return {"unlisted": case["cls"] in unlisted_wrappers(T.regenerate())}
     if case.get("kind") == "loader":
         return run_loader_case(case)
+    if case.get("kind") == "launch":
+        return run_launch_case(case)
     return run_sim_case(case)
 
 
@@ -469,6 +700,44 @@ def oracle(case, obs):
     if "harness_exception" in obs:
         return "harness exception: " + obs["harness_exception"] + obs.get("tb", "")
     if case.get("kind") == "translator":
+        return None
+    if case.get("kind") == "unlisted":
+        if obs.get("unlisted"):
+            return (f"sample wrapper class {case['cls']} has stochastic parts (called transform fields / own draws) but the "
+                    "harness builds no stacks with it (harness/c09.py GENERATED_WRAPPERS; fail closed)")
+        return None
+    if case.get("kind") == "launch":
+        runs = obs["launches"]
+        for r in runs:
+            if "crash" in r:
+                return "launch of a fresh interpreter failed: " + r["crash"]
+        ref = runs[0]
+        for r in runs[1:]:
+            for k, (a, b) in enumerate(zip(ref["records"], r["records"])):
+                if a == b:
+                    continue
+                it = case["items"][k]
+                sig = K.spec_sig(it["spec"])
+                what = "?"
+                if "error" in a or "error" in b:
+                    what = f"one launch failed to build / initialise the worker ({a.get('error')} / {b.get('error')})"
+                else:
+                    for s_, p_ in enumerate(a["paths"]):
+                        if a["streams"][s_] != b["streams"][s_]:
+                            what = (f"the generator of {p_} starts with {a['streams'][s_][:2]} in one launch and with "
+                                    f"{b['streams'][s_][:2]} in the other")
+                            break
+                    else:
+                        if a["collated"] != b["collated"]:
+                            d = next(k2 for k2, (u, v) in enumerate(zip(a["collated"], b["collated"])) if u != v)
+                            what = (f"the batch collated by the registered {a['collated'][d][0]} differs: "
+                                    f"{str(a['collated'][d][1:])[:160]} vs {str(b['collated'][d][1:])[:160]}")
+                        elif a["samples"] != b["samples"]:
+                            d = next(k2 for k2, (u, v) in enumerate(zip(a["samples"], b["samples"])) if u != v)
+                            what = f"sample {a['samples'][d][0]} differs: {str(a['samples'][d][1])[:160]} vs {str(b['samples'][d][1])[:160]}"
+                return (f"{sig}: the same fully seeded worker (global seed {it['ga']}, worker seed {it['ws1']}, rank {it['rank']}) "
+                        f"does not reproduce its streams in another interpreter launch (PYTHONHASHSEED={ref['hashseed']} vs "
+                        f"{r['hashseed']}): {what}  [item {k} of {len(case['items'])}]")
         return None
     sig = K.spec_sig(case["spec"])
     if "construct_error" in obs:
@@ -532,6 +801,18 @@ def oracle(case, obs):
     for s, p in enumerate(paths):
         if w1["after"][s] != w1b["after"][s]:
             return f"{sig}: the same worker seed {case['ws1']} does not reproduce the stream of {p}"
+    # ... and what the worker produces from them (covers the wrappers' own draws, which have no generator slot)
+    def noexc(v):
+        return v[:2] + v[3:] if isinstance(v, list) and v and v[0] == "EXC" else v     # (messages may hold addresses)
+
+    for (i, a), (_, b) in zip(w1["samples"], w1b["samples"]):
+        if noexc(a) != noexc(b):
+            return (f"{sig}: the same worker seed {case['ws1']} (numpy / torch / random of the worker seeded with it, then "
+                    f"worker_init_fn(rank={case['rank']})) does not reproduce sample {i}: {str(a)[:200]} vs {str(b)[:200]}")
+    for a, b in zip(w1["collated"], w1b["collated"]):
+        if a != b:
+            return (f"{sig}: the same worker seed {case['ws1']} does not reproduce the batch collated by the registered "
+                    f"{a[0]}: {str(a[1:])[:200]} vs {str(b[1:])[:200]}")
     # distinct units, distinct generators
     for a in range(len(paths)):
         for b in range(a + 1, len(paths)):
@@ -543,7 +824,9 @@ def oracle(case, obs):
         # business; the wrapper / dataset code must not raise)
         if isinstance(v, list) and v and v[0] == "EXC" and "transforms" not in v[3]:
             return f"{sig}: sample {i} after worker_init_fn raised {v[1]}: {v[2]} (in {v[3] or 'library code'})"
-    bad = [s for s in obs.get("sources", []) if s[0] != "wrk"]
+    # worker-derived: a generator created by the hook, or one of the worker's own process-global generators (the
+    # DataLoader seeds them per worker); not: inherited copies, per-item generators, OS entropy
+    bad = [s for s in obs.get("sources", []) if not (s[0] == "wrk" or (s[0] == "glob" and s[1] in ("GNumpy", "GTorch", "GPython")))]
     if bad:
         where = [paths[s[1]] for s in bad if s[0] == "ctor" and s[1] < len(paths)]
         return (f"{sig}: after worker_init_fn samples still draw from generators that are not worker-derived: {bad[:4]} "
@@ -565,6 +848,12 @@ def coq_case(case, obs):
 
 
 def features(case, obs):
+    if case.get("kind") == "launch":
+        yield "kind=launch"
+        yield "launch_items=%d" % len(case["items"])
+        for r in obs.get("launches", []):
+            yield "launch_hashseed=" + str(r.get("hashseed"))
+        return
     if case.get("kind") != "sim":
         yield "kind=" + str(case.get("kind"))
         return
@@ -580,6 +869,12 @@ def features(case, obs):
     yield "created=%s" % min(obs.get("created", -1), 8)
     yield "drew=%s" % bool(obs.get("sources"))
     yield "warm=%d" % len(case["warm"])
+    yield "ws_zero=%s" % (0 in (case["ws1"], case["ws2"]))
+    for s_ in obs.get("sources", []):
+        if s_[0] == "glob":
+            yield "own_draws_from=" + s_[1]
+    for c in obs.get("collated", []):
+        yield "collated=" + c[0] + ("#raised" if c[1] == "EXC" else "")
 
 
 def nontrivial_key(case, obs):
@@ -587,8 +882,19 @@ def nontrivial_key(case, obs):
         if not obs.get("paths") or any("error" in r for r in obs.get("runs", [])):
             return None
         return ("loader", K.spec_sig(case["spec"]), case["nw"])
+    if case.get("kind") == "launch":
+        runs = obs.get("launches", [])
+        if len(runs) < 3 or any("crash" in r for r in runs) or len({r["hashseed"] for r in runs}) < 3:
+            return None
+        return ("launch", len(case["items"]), tuple(case["hs"]))
     if case.get("kind") != "sim" or "sources" not in obs:
         return None
     if not obs["paths"] or not any(s[0] == "wrk" for s in obs["sources"]):
         return None
     return (K.spec_sig(case["spec"]), len(obs["paths"]))
+
+
+if __name__ == "__main__":
+    import sys as _sys
+    if "--launch-child" in _sys.argv:
+        _launch_child()
